@@ -49,3 +49,11 @@ Example C20_example :
   fst (detect true true t) = RTlcp /\
   outs (fst (pd_reads (snd (detect true true t)) [2; 2; 9; 4])) = [22; 1; 1; 0; 2; 7; 8]%N.
 Proof. vm_compute. split; reflexivity. Qed.
+
+(* the major version bytes the model routes are exactly the constants the adapter's detect() switch distinguishes,
+   as read from the sources: Model/GenConsts.v is regenerated from the repository under test (tools/consts) before
+   every build; stated for all 256 byte values *)
+From V Require Import Model.GenConsts Proofs.TieC20.
+Theorem C20_routing_constants_are_the_sources : TieC20.tie.
+Proof. exact TieC20.tie_holds. Qed.
+Print Assumptions C20_routing_constants_are_the_sources.
